@@ -8,7 +8,6 @@ import (
 	"testing"
 	"time"
 
-	"github.com/0xReLogic/Helios/internal/loadbalancer"
 	"github.com/0xReLogic/Helios/verifharness/lab"
 	"pgregory.net/rapid"
 )
@@ -43,7 +42,8 @@ func TestC20PoolSequential(t *testing.T) {
 	sub.Floor("put-refused", 0.30)
 	sub.Floor("shutdown-with-idle", 0.15)
 	sub.Floor("max_idle-0", 0.08)
-	lab.Assume("pool: the WebSocket pool is not wired into the proxy path of this codebase, so its invariants are decided on the pool object (loadbalancer.NewWebSocketPool) through its exported API; the janitor runs only through the VerifCleanup hook (its own 30 s ticker stays on the real clock and never fires within a case)")
+	lab.Assume("pool: the WebSocket pool is not wired into the proxy path of this codebase, so its invariants are decided on the pool object (loadbalancer.NewWebSocketPool) through its exported API; the janitor is driven through the VerifCleanup hook; the pool's own 30 s ticker stays on the real clock")
+	lab.Assume("pool objects are reused between cases (one per (max_idle, max_active, idle_timeout) triple, because the janitor goroutine of a pool can never be stopped): every case starts from Shutdown + verified Stats 0/0 and ends with Shutdown; a real-clock janitor tick that lands inside a case (about 1 case in 10^5) can only close idle connections early, which no clause of the oracle forbids")
 	lab.Assume("pool callers are sound: Put/Close only with a connection the caller holds (freshly dialled or obtained from Get) and for the backend it belongs to; nil connections and double returns are not generated")
 	maxLen := lab.Scale(40, 80)
 	lab.Check(t, sub, 5000, 300000, func(rt *rapid.T) {
@@ -52,13 +52,18 @@ func TestC20PoolSequential(t *testing.T) {
 		pc.MaxActive = pc.MaxIdle + rapid.IntRange(0, 5).Draw(rt, "maxactive")
 		n := rapid.IntRange(1, maxLen).Draw(rt, "n")
 		T := time.Duration(pc.IdleTimeout) * time.Second
-		pool := loadbalancer.NewWebSocketPool(pc.MaxIdle, pc.MaxActive, T) // outside the bubble: owns a never-ending janitor goroutine
+		// outside the bubble: the pool owns a never-ending janitor goroutine (one pool per parameter triple, emptied by Shutdown)
+		pool, stale := cachedPool(pc.MaxIdle, pc.MaxActive, T, pc.Backends)
+		if stale != "" {
+			rt.Fatalf("pool %+v: %s", pc, stale)
+		}
 		var evs []poolEvent
 		var viol string
 		labels := map[string]bool{}
 		nontrivial := false
 		wd := lab.StartWatchdog(t.Name(), name, lab.NoProgress, func() any { return map[string]any{"cfg": pc, "events": evs} })
 		defer wd.Stop()
+		defer pool.Shutdown() // also when the case fails half-way: the next case starts from an empty pool
 		rapid.SyncTest(rt, func(rt *rapid.T) {
 			m := newPoolModel(pc.MaxIdle, T)
 			nextID := 0
@@ -229,6 +234,7 @@ func TestC20PoolSequential(t *testing.T) {
 				pool.Shutdown()
 			}
 		})
+		wd.Stop() // the guarded calls have returned; what follows is harness bookkeeping
 		ls := []string{fmt.Sprintf("max_idle-%d", pc.MaxIdle), fmt.Sprintf("backends-%d", pc.Backends)}
 		for l := range labels {
 			ls = append(ls, l)
